@@ -3,6 +3,4 @@ CONSTANTS
   N = 3
   MaxFaults = 3
   TwoTimeouts = TRUE
-  Extra = {"json503un"}
-  Repaired = FALSE
 CHECK_DEADLOCK FALSE
